@@ -150,7 +150,13 @@ func H_roundtrip_runs() {
 	}
 	z, err := compress(in, len(in), b2)
 	symAssert(err == nil, "writer-close-ok")
-	out, rerr, cerr := decompress(z, b2, 64, len(in)+3)
+	// read buffer sizes that end inside matches at ever changing offsets (the
+	// matches of a run cross the end of the ring buffer again and again)
+	bufsz := 64
+	if R <= 9000 {
+		bufsz = [...]int{64, 7, 13, 100}[symInt(0, 3)]
+	}
+	out, rerr, cerr := decompress(z, b2, bufsz, len(in)+3)
 	symAssert(rerr == nil, "reader-no-error")
 	symAssert(cerr == nil, "reader-close-ok")
 	symAssert(sameBytes(out, in), "roundtrip-reproduces-input")
